@@ -71,6 +71,12 @@ class Tables(object):
         self.rt = index.need(RULETYPES_MOD)
         self._cache = {}
 
+    def walker_semantics(self):
+        if getattr(self, '_wsem', None) is None:
+            from .walkersem import WalkerSemantics
+            self._wsem = WalkerSemantics(self.index)
+        return self._wsem
+
     # -- digests ---------------------------------------------------------
 
     def digests(self):
@@ -246,7 +252,20 @@ def normalise(run, layout_handlers):
 
 def process_run(tables, layout_handlers, run, before, after, am=None,
                 newline_str='\n', indent_str='  '):
-    """texts emitted for a layout run between token texts before/after"""
+    """texts emitted for a layout run between token texts before/after:
+    the nested function process_layouts of walker.walk is evaluated from
+    the current source (engine/walkersem.py)"""
+    W = tables.walker_semantics()
+
+    def emit(h, nodecls, b, a, p):
+        return tables.emit(h, nodecls, b, a, p, am, newline_str, indent_str)
+    return W.process_layouts(layout_handlers, run, before, after, emit)
+
+
+def process_run_model(tables, layout_handlers, run, before, after, am=None,
+                      newline_str='\n', indent_str='  '):
+    """the transcription of process_layouts (kept as the reference model
+    of the differential rule)"""
     out = []
     prev = None
     for key, h, nodecls in normalise(run, layout_handlers):
